@@ -96,6 +96,7 @@ def b_random_choice(eng, e, st):
 # ---------------------------------------------------------------------------
 # external classes: [TRUSTED] contracts registered by the contract files
 # ---------------------------------------------------------------------------
+MODULE_CONSTANTS = {}   # dotted name -> () -> Val   (constants of external modules, e.g. cp_model.OPTIMAL)
 EXT_MODELS = {}      # (class, method) -> fn(eng, call node, state, receiver Val) -> [(state, Val)]
 EXT_TEXT = {}        # (class, method) -> what is assumed, for the evidence
 
